@@ -48,6 +48,10 @@ def run_sim(prop, cases, exe, model_comp, judge_comp, scheds=(1, 2, 3), hist_key
     def work(part):
         text = core.cases_to_text([j[2] for j in part])
         impl = core.run_stream([exe], text, env=env, timeout=timeout)
+        if impl.rc == -999:
+            # the whole stream ran out of wall time: a genuinely stuck case is turned into a result by
+            # the harness's own per-line watchdog (HANG / DEADLOCK), so this is a slow machine: once more
+            impl = core.run_stream([exe], text, env=env, timeout=timeout * 3)
         icases, partial = core.split_cases(impl.lines)
         out = {"impl": impl, "icases": icases, "partial": partial}
         if model_comp:
